@@ -130,6 +130,7 @@ type Gate struct {
 	constGl      map[*ssa.Global]bool
 	noHavoc      bool
 	seq          int
+	allocRC      map[*E]Ref      // reach condition of each allocation
 	Funcs        map[string]bool // functions evaluated (incl. inlined)
 }
 
@@ -646,8 +647,19 @@ func (f *frame) store(addr, val *E, rc Ref, in ssa.Instruction) {
 			old = u.mk("loopval", "carried:"+k, t)
 		}
 	}
-	f.mem.m[k] = u.ITE(rc, val, old)
-	f.storeFields(addr, val, rc)
+	// a store that happens whenever the object it writes exists: every later load of the object
+	// comes after it, so the previous content plays no part (and the selection would only drag the
+	// conditions under which this code was reached into the value)
+	mrc := rc
+	root := addr
+	for (root.Op == "faddr" || root.Op == "iaddr") && len(root.Args) > 0 {
+		root = root.Args[0]
+	}
+	if arc, have := f.g.allocRC[root]; have && root.Op == "alloc" && arc == rc {
+		mrc = True
+	}
+	f.mem.m[k] = u.ITE(mrc, val, old)
+	f.storeFields(addr, val, mrc)
 	f.addEffect(Effect{Cond: rc, Kind: "store", Addr: addr, Val: val, Pos: in.Pos(), Ins: in, Local: local})
 }
 
@@ -1104,6 +1116,13 @@ func (f *frame) instr(b *ssa.BasicBlock, in ssa.Instruction, rc Ref) {
 			tag = "init!" + f.fn.Pkg.Pkg.Path() + ":" + tag
 		}
 		f.env[in] = u.mk("alloc", tag+":"+in.Name()+kind, in.Type())
+		if f.g.allocRC == nil {
+			f.g.allocRC = map[*E]Ref{}
+		}
+		if old, have := f.g.allocRC[f.env[in]]; have {
+			rc = u.bdd.Or(old, rc) // an unrolled loop evaluates the allocation once per iteration
+		}
+		f.g.allocRC[f.env[in]] = rc
 	case *ssa.FieldAddr:
 		x := f.val(in.X)
 		st := derefStruct(in.X.Type())
@@ -2489,9 +2508,11 @@ func (f *frame) tryUnroll(h *ssa.BasicBlock) (map[*ssa.BasicBlock]bool, bool) {
 	recs := map[*ssa.BasicBlock][]exitRec{}
 	type phiAt struct {
 		cond Ref
+		rel  Ref // the same condition relative to the entry of the loop
 		vals map[*ssa.Phi]*E
 	}
 	var atExit []phiAt
+	var relAlive Ref = True
 	for iter := int64(0); ; iter++ {
 		if iter > N+1 {
 			restore()
@@ -2545,12 +2566,39 @@ func (f *frame) tryUnroll(h *ssa.BasicBlock) (map[*ssa.BasicBlock]bool, bool) {
 				recs[t] = append(recs[t], exitRec{cond: c, vals: vals})
 			}
 		}
+		// conditions relative to the entry of the loop (the branches taken inside it only): the
+		// selections between the values of different paths must not mention how the loop was reached
+		rel := map[*ssa.BasicBlock]Ref{h: relAlive}
+		for _, b := range body {
+			if !l.Blocks[b] {
+				continue
+			}
+			var r Ref = False
+			for _, q := range b.Preds {
+				if rq, have := rel[q]; have && !f.back[[2]int{q.Index, b.Index}] {
+					r = u.bdd.Or(r, u.bdd.And(rq, f.localCond(q, b)))
+				}
+			}
+			rel[b] = r
+		}
 		if leaving != False {
-			atExit = append(atExit, phiAt{leaving, snapshot})
+			relLeaving := False
+			for _, b := range append([]*ssa.BasicBlock{h}, body...) {
+				rb, have := rel[b]
+				if !have {
+					continue
+				}
+				for _, t := range b.Succs {
+					if !l.Blocks[t] {
+						relLeaving = u.bdd.Or(relLeaving, u.bdd.And(rb, f.localCond(b, t)))
+					}
+				}
+			}
+			atExit = append(atExit, phiAt{leaving, relLeaving, snapshot})
 		}
 		// next iteration
 		next := map[*ssa.Phi]*E{}
-		var nextAlive Ref = False
+		var nextAlive, nextRel Ref = False, False
 		for i, p := range h.Preds {
 			if !f.back[[2]int{p.Index, h.Index}] {
 				continue
@@ -2559,11 +2607,20 @@ func (f *frame) tryUnroll(h *ssa.BasicBlock) (map[*ssa.BasicBlock]bool, bool) {
 			if c == False {
 				continue
 			}
+			cr := c
+			if rp, have := rel[p]; have {
+				cr = u.bdd.And(rp, f.localCond(p, h))
+			}
+			if os.Getenv("UFCHECK_DEBUG_UNROLL") != "" {
+				_, have := rel[p]
+				fmt.Fprintf(os.Stderr, "UNROLL %s iter=%d pred=%d have=%v cr=%s\n", f.fn.Name(), iter, p.Index, have, clip(u.ShowBool(cr), 200))
+			}
 			nextAlive = u.bdd.Or(nextAlive, c)
+			nextRel = u.bdd.Or(nextRel, cr)
 			for _, phx := range phis {
 				v := f.val(phx.Edges[i])
 				if old, have := next[phx]; have {
-					next[phx] = u.ITE(c, v, old)
+					next[phx] = u.ITE(cr, v, old)
 				} else {
 					next[phx] = v
 				}
@@ -2572,7 +2629,7 @@ func (f *frame) tryUnroll(h *ssa.BasicBlock) (map[*ssa.BasicBlock]bool, bool) {
 		if nextAlive == False {
 			break
 		}
-		alive, cur = nextAlive, next
+		alive, cur, relAlive = nextAlive, next, nextRel
 	}
 	f.presetPhi = nil
 	if f.edgeOv == nil {
@@ -2598,7 +2655,7 @@ func (f *frame) tryUnroll(h *ssa.BasicBlock) (map[*ssa.BasicBlock]bool, bool) {
 			if v == nil {
 				v = a.vals[phx]
 			} else {
-				v = u.ITE(a.cond, a.vals[phx], v)
+				v = u.ITE(a.rel, a.vals[phx], v)
 			}
 		}
 		if v != nil {
